@@ -118,9 +118,9 @@ class Behaviour:
 
 def gen_cfg(r, **force):
     n = r.choice([1, 2, 2, 3, 3, 4, 5])
-    has_timer = r.random() < 0.93
-    has_comm = r.random() < 0.9
-    has_mob = r.random() < 0.75
+    has_timer = force.get("hasTimer", r.random() < 0.93)
+    has_comm = force.get("hasComm", r.random() < 0.9)
+    has_mob = force.get("hasMob", r.random() < 0.75)
     labels = []
     if has_timer:
         labels.append("timer")
@@ -174,3 +174,13 @@ def gen_scenario(seed, force_cfg=None, profile=None, drive=None):
             drive = {"mode": "steps", "n": r.choice([0, 1, 3, 10, 50, 400])}
     scn = {"cfg": cfg, "table": [], "drive": drive, "seed": seed, "profile": prof}
     return scn, Behaviour(stable_hash("beh", seed), cfg, prof)
+
+
+def set_handler(cfg, label, present):
+    """switch one of the real handlers on or off consistently (flag + registration list)"""
+    flag = {"timer": "hasTimer", "communication": "hasComm", "mobility": "hasMob"}[label]
+    cfg[flag] = present
+    hs = [h for h in cfg["handlers"] if h != label]
+    if present:
+        hs.append(label)
+    cfg["handlers"] = hs
